@@ -14,6 +14,7 @@ import hashlib
 import socket
 
 from . import common as C
+from . import lan_pub as P
 
 MODEL_MAP = [
     {'python': 'pyipmi/interfaces/rmcp.py:RmcpMsg.pack/unpack', 'coq': 'Model.Rmcp.rmcp_pack/rmcp_unpack'},
@@ -50,21 +51,7 @@ def _rmcp():
 # --------------------------------------------------------------------------
 # substitutes (no hook in /repo)
 # --------------------------------------------------------------------------
-class FakeSock:
-    def __init__(self, rx=()):
-        self.sent = []
-        self.rx = list(rx)
-
-    def sendto(self, pdu, addr):
-        self.sent.append(bytes(pdu))
-
-    def recvfrom(self, n):
-        if not self.rx:
-            raise socket.timeout()
-        return (self.rx.pop(0), ('bmc', 623))
-
-    def settimeout(self, t):
-        pass
+FakeSock = P.FakeSock
 
 
 class Md5Recorder:
@@ -99,7 +86,8 @@ def mk_session(st):
     if st is None:
         return None
     s = Session()
-    s._auth_password = pw_value(st['pw'])
+    if st['pw'] is not None:
+        s.set_auth_type_user(None, pw_value(st['pw']))      # public; a fresh Session has no password
     s.auth_type = st['auth']
     s.sid = st['sid']
     s.sequence_number = st['seq']
@@ -229,24 +217,32 @@ def spec_pong_structure(d):
 # --------------------------------------------------------------------------
 # running the implementation
 # --------------------------------------------------------------------------
-def new_itf(session, rseq=0xff, rx=()):
-    r = _rmcp().Rmcp()
-    r._sock = FakeSock(rx)
-    r.host, r.port = 'bmc', 623
-    r._session = session
-    r.seq_number = rseq
+def new_itf(session, rseq=0xff, rx=(), **kw):
+    """an Rmcp interface on a recording socket (given through the public open()), sending under
+    `session`; our socket object is kept as itf.verif_sock"""
+    sock = FakeSock(rx)
+    r = P.new_interface(sock, **kw)
+    r.verif_sock = sock
+    P.attach_session(r, sock, session)
+    if rseq != 0xff and hasattr(r, 'seq_number'):
+        r.seq_number = rseq
     return r
 
 
 def impl_send(st, rseq, data):
-    """Rmcp._send_ipmi_msg behind the recording socket ->
-    (code, datagram|None, seq afterwards, rmcp seq afterwards, md5 inputs)"""
+    """One datagram with payload `data` through the Rmcp interface behind the recording socket ->
+    (code, datagram|None, seq afterwards, rmcp seq afterwards, md5 inputs, payload actually carried),
+    or None when that payload cannot be sent on the path available (see lan_pub.send_payload)"""
     s = mk_session(st)
     r = new_itf(s, rseq)
     with md5_recorded() as rec:
-        code, _ = attempt(lambda: r._send_ipmi_msg(data))
-    dg = r._sock.sent[0] if r._sock.sent else None
-    return code, dg, (s.sequence_number if s is not None else 0), r.seq_number, rec.calls
+        out = P.send_payload(r, r.verif_sock, data)
+    if out is None:
+        return None
+    exc, eff = out
+    sent = r.verif_sock.sent
+    return (0 if exc is None else code_of(exc), sent[0] if sent else None,
+            (s.sequence_number if s is not None else 0), getattr(r, 'seq_number', rseq), rec.calls, eff)
 
 
 def impl_pack(st, sdu):
@@ -258,17 +254,20 @@ def impl_pack(st, sdu):
 
 
 def impl_recv(q, dgram):
-    r = new_itf(None, rx=[dgram])
-    return attempt(lambda: bytes(r._receive_ipmi_msg(q)))
+    """-> (level, code, data) ; level 'rmcp' | 'classes', or None when not observable (lan_pub.receive_payload)"""
+    out = P.receive_payload(q, dgram)
+    if out is None:
+        return None
+    level, exc, data = out
+    return level, (0 if exc is None else code_of(exc)), data
 
 
 def impl_recv_pong(dgram):
-    r = new_itf(None, rx=[dgram])
-
-    def f():
-        m = r._receive_asf_msg(_rmcp().AsfPong)
-        return [m.oem_iana_enterprise_number, m.oem_defined, m.supported_entities, m.supported_interactions]
-    return attempt(f)
+    """Rmcp.ping() answered with dgram; on success the field values as AsfPong().unpack reports them"""
+    exc, _ = P.ping_with(dgram)
+    if exc is not None:
+        return code_of(exc), None
+    return attempt(lambda: _pong_fields(_rmcp(), dgram[4:]))
 
 
 # --------------------------------------------------------------------------
@@ -278,7 +277,10 @@ def oracle_send(inp):
     """datagram sent for (session state, payload) is exactly the specified one, built
     over the sequence number that the session holds afterwards"""
     st, data, rseq = inp['st'], bytes.fromhex(inp['data']), inp.get('rseq', 0xff)
-    code, dg, seq_after, _, _ = impl_send(st, rseq, data)
+    out = impl_send(st, rseq, data)
+    if out is None:
+        return None
+    code, dg, seq_after, _, _, data = out
     if code != 0 or dg is None:
         return 'no datagram sent (exception class %d)' % code
     if st is None:
@@ -335,24 +337,13 @@ def judge_recv(d, q, code, data):
 
 def oracle_recv(inp):
     d, q = bytes.fromhex(inp['dgram']), inp['quirk']
-    code, data = impl_recv(q, d)
-    return judge_recv(d, q, code, data)
+    out = impl_recv(q, d)
+    if out is None:
+        return None
+    return judge_recv(d, q, out[1], out[2])
 
 
-def reply_datagram(req_dg, data, auth=0, delta=0, zero=False):
-    """the datagram a BMC sends back for request datagram req_dg carrying response data (cc + fields),
-    session header of type `auth`; length byte off by delta (or 0 when zero) - built from the formats"""
-    body = req_dg[4:]
-    f = body[(10 if body[0] == 0 else 26):]
-    rs_sa, b1, _, rq_sa, b4, cmd = f[:6]
-    head = [rq_sa, (((b1 >> 2) | 1) << 2) | (b4 & 3)]
-    head.append(-sum(head) % 256)
-    rest = [rs_sa, (b4 & 0xfc) | (b1 & 3), cmd] + list(data)
-    rest.append(-sum(rest) % 256)
-    frame = bytes(head + rest)
-    ln = 0 if zero else (len(frame) + delta) % 256
-    hdr = bytes([auth]) + bytes([1, 0, 0, 0, 2, 0, 0, 0]) + (bytes(range(16)) if auth != 0 else b'')
-    return bytes([6, 0, 0xff, 7]) + hdr + bytes([ln]) + frame
+reply_datagram = P.reply_datagram
 
 
 def oracle_quirk_public(inp):
@@ -366,13 +357,9 @@ def oracle_quirk_public(inp):
     itf = pyipmi.interfaces.create_interface('rmcp', **kw) if inp['via'] == 'create_interface' else rmcp.Rmcp(**kw)
     data = bytes.fromhex(inp['rsp'])
 
-    class Sock(FakeSock):
-        def sendto(self, pdu, addr):
-            FakeSock.sendto(self, pdu, addr)
-            self.rx = [reply_datagram(bytes(pdu), data, inp['auth'], inp['delta'], inp.get('zero', False))]
-    itf._sock = Sock()
-    itf.host, itf.port = 'bmc', 623
-    itf._session = mk_session(inp.get('st'))
+    sock = FakeSock(responder=lambda pdu: [reply_datagram(pdu, data, inp['auth'], inp['delta'], inp.get('zero', False))])
+    P.give_socket(itf, sock)
+    P.attach_session(itf, sock, mk_session(inp.get('st')))
     raw = bytes.fromhex(inp['raw'])
     code, got = attempt(lambda: bytes(itf.send_and_receive_raw(pyipmi.Target(0x20), inp['lun'], inp['netfn'], raw)))
     wrong = inp.get('zero', False) or inp['delta'] % 256 != 0
@@ -406,8 +393,9 @@ def quirk_seq_steps(calls):
     for n, c in enumerate(calls):
         if c[0] == 'rmcp':
             r = rmcp.Rmcp() if c[2] is None else rmcp.Rmcp(quirks_cfg={'rmcp_ignore_sdu_length': c[2]})
-            r._sock = FakeSock()
-            r.host, r.port = 'bmc', 623
+            sock = FakeSock()
+            P.give_socket(r, sock)
+            r.verif_sock = sock
             objs[c[1]] = ('rmcp', r, bool(c[2]))
         elif c[0] == 'msg':
             m = rmcp.IpmiMsg() if c[2] is None else rmcp.IpmiMsg(ignore_sdu_length=c[2])
@@ -415,10 +403,28 @@ def quirk_seq_steps(calls):
         elif c[0] == 'recv' and c[1] in objs:
             kind, o, q = objs[c[1]]
             d = bytes.fromhex(c[2])
-            if kind == 'rmcp':
-                o._sock.rx = [d]
+            if kind == 'rmcp' and P.has(o, '_receive_ipmi_msg'):
+                o.verif_sock.rx = [d]
                 # as Rmcp._send_and_receive calls it
-                code, data = attempt(lambda: bytes(o._receive_ipmi_msg(o.ignore_sdu_length)))
+                code, data = attempt(lambda: bytes(o._receive_ipmi_msg(getattr(o, 'ignore_sdu_length', q))))
+            elif kind == 'rmcp':
+                # public path: the object answers a raw request; the reply has the session header type and
+                # the length-byte error of d around a matching IPMB response frame
+                kind = 'rmcp-public'
+                import pyipmi
+                if len(d) < 5:
+                    continue
+                hl = 4 + (10 if d[4] == 0 else 26)
+                if len(d) < hl:
+                    continue
+                delta = (d[hl - 1] - (len(d) - hl)) % 256
+                rsp = bytes([0]) + bytes(d[hl:hl + 9])
+                o.verif_sock.responder = lambda pdu: [reply_datagram(pdu, rsp, d[4], delta)]
+                code, data = attempt(lambda: bytes(o.send_and_receive_raw(pyipmi.Target(0x20), 0, 6, b'\x01')))
+                o.verif_sock.responder = None
+                ok = (code == 0 and data == rsp) if (delta == 0 or q) else code != 0
+                data = None if ok else ('reply with length byte %+d off: %s' % (
+                    delta if delta < 128 else delta - 256, 'exception class %d' % code if code else 'returned %s' % data.hex()))
             else:
                 code, data = attempt(lambda: bytes(o.unpack(d[4:]) or b''))
             yield n, c, kind, q, code, data
@@ -428,6 +434,10 @@ def oracle_quirk_seq(inp):
     """every object behaves per ITS OWN length-check setting, whatever was created before"""
     for n, c, kind, q, code, data in quirk_seq_steps(inp['calls']):
         d = bytes.fromhex(c[2])
+        if kind == 'rmcp-public':
+            if data is not None:
+                return 'call %d of the history: rmcp object %r created with ignore_sdu_length=%s: %s' % (n, c[1], q, data)
+            continue
         if kind == 'msg' and (len(d) < 4 or d[0] != 6 or d[3] != 7):
             continue        # IpmiMsg.unpack alone does not see the RMCP header
         msg = judge_recv(d, q, code, data if data is not None else b'')
@@ -462,14 +472,19 @@ def pack_seq_steps(calls):
             sh[{'auth_type': 'auth', 'sid': 'sid', 'sequence_number': 'seq', 'activated': 'act'}[c[2]]] = c[3]
         elif c[0] == 'send':
             s, sh = objs[c[1]]
-            r._session = s
-            r._sock.sent = []
+            P.attach_session(r, r.verif_sock, s)
+            r.verif_sock.sent = []
             st = dict(sh)
             with md5_recorded() as rec:
-                code, _ = attempt(lambda: r._send_ipmi_msg(bytes.fromhex(c[2])))
+                out = P.send_payload(r, r.verif_sock, bytes.fromhex(c[2]))
+            if out is None:
+                continue            # this payload cannot be sent on the path available
+            exc, eff = out
             if sh['act']:
                 sh['seq'] = spec_next_seq(sh['seq'])
-            yield n, c, st, code, (r._sock.sent[0] if r._sock.sent else None), s.sequence_number, rec.calls
+            sent = r.verif_sock.sent
+            yield (n, [c[0], c[1], eff.hex()], st, 0 if exc is None else code_of(exc), sent[0] if sent else None,
+                   s.sequence_number, rec.calls)
 
 
 def oracle_pack_seq(inp):
@@ -497,9 +512,8 @@ def oracle_pack_seq(inp):
 
 
 def oracle_ping(inp):
-    r = new_itf(None, rx=[spec_pong()])
-    code, _ = attempt(r.ping)
-    sent = r._sock.sent
+    exc, sent = P.ping_with(spec_pong())
+    code = 0 if exc is None else code_of(exc)
     if len(sent) != 1 or sent[0] != SPEC_PING:
         return 'presence ping sent as %s, specified %s' % ([x.hex() for x in sent], SPEC_PING.hex())
     if code != 0:
@@ -564,338 +578,374 @@ def run(ctx):
     pws = passwords(rng, q)
     okpw = [p for p in pws if p is not None]
 
+    stage_errors = []
+
+    class stage:
+        """A stage that raises (an exception of the implementation or of a helper that reached the harness
+        outside `attempt`) is recorded as an observation and the run goes on with the next stage."""
+
+        def __init__(self, name):
+            self.name = name
+
+        def __enter__(self):
+            return self
+
+        def __exit__(self, et, ev, tb):
+            if et is not None and issubclass(et, Exception):
+                import traceback
+                txt = ''.join(traceback.format_exception(et, ev, tb))[-1500:]
+                stage_errors.append({'stage': self.name, 'exception': '%s: %s' % (et.__name__, ev), 'traceback': txt})
+                print('NOTE property=C05 stage %r did not complete: %s: %s' % (self.name, et.__name__, ev))
+                return True
+            return False
+
     # ---- Session.increment_sequence_number
-    from pyipmi.session import Session
-    for n in IDS + [0xfffffffd, 2, 0xfe] + [rng.randrange(1 << 32) for _ in range(20)]:
-        s = Session()
-        s.sequence_number = n
-        s.increment_sequence_number()
-        add('chk_incr %d %d' % (n, s.sequence_number), ('incr', n))
-        D.add(('incr', n), True, 'increment')
+    with stage('Session.increment_sequence_number'):
+        from pyipmi.session import Session
+        for n in IDS + [0xfffffffd, 2, 0xfe] + [rng.randrange(1 << 32) for _ in range(20)]:
+            s = Session()
+            s.sequence_number = n
+            s.increment_sequence_number()
+            add('chk_incr %d %d' % (n, s.sequence_number), ('incr', n))
+            D.add(('incr', n), True, 'increment')
 
     # ---- IpmiMsg.pack / Rmcp._send_ipmi_msg: (session state, payload)
-    def one_pack(st, sdu, via_send, rseq=0xff):
-        if via_send:
-            code, dg, seq2, rseq2, calls = impl_send(st, rseq, sdu)
-            add('chk_send %s %s %d %s %d %d %d %s' % (c_tab(calls), c_sess(st), rseq, C.c_hex(sdu), seq2, rseq2, code,
-                                                     C.c_hex(dg or b'')), ('send', st, sdu.hex(), rseq))
-        else:
-            code, pdu, seq2, calls = impl_pack(st, sdu)
-            add('chk_pack %s %s %s %d %d %s' % (c_tab(calls), c_sess(st), c_sdu(sdu), seq2, code, C.c_hex(pdu or b'')),
-                ('pack', st, None if sdu is None else sdu.hex()))
-            if st is not None and st['sid'] < (1 << 32) and st['seq'] < (1 << 32):
-                # _pack_auth_code_md5 called directly (no increment): what goes into hashlib.md5
-                m = rmcp.IpmiMsg(mk_session(st))
-                with md5_recorded() as rec:
-                    code2, _ = attempt(lambda: m._pack_auth_code_md5(sdu))
-                add('chk_preimage %s %s %d %s' % (c_sess(st), c_sdu(sdu), code2,
-                                                  C.c_hex(rec.calls[0] if rec.calls else b'')), ('preimage', st))
-        supported = st is None or (st['auth'] in (0, 2, 4) and st['pw'] is not None and len(pw_bytes(st['pw'])) <= 16
-                                   and st['sid'] < (1 << 32) and st['seq'] < (1 << 32))
-        if via_send and supported and len(sdu) <= 255 and 0 <= rseq <= 255:
-            oracle('send', {'st': st, 'data': sdu.hex(), 'rseq': rseq},
-                   'IpmiMsg.pack:auth%s:%s' % (st['auth'] if st else 'nosession',
-                                               'activated' if st and st['act'] else 'not-activated'))
-        D.add(('pack', repr(st), sdu, via_send, rseq), True,
-              'pack-auth-%s' % (st['auth'] if st else 'nosession'))
+    with stage('IpmiMsg.pack / Rmcp._send_ipmi_msg'):
+        def one_pack(st, sdu, via_send, rseq=0xff):
+            out = impl_send(st, rseq, sdu) if via_send else None
+            if via_send and out is None:
+                via_send = False        # not sendable through the interface on the path available: IpmiMsg.pack alone
+            if via_send:
+                code, dg, seq2, rseq2, calls, sdu = out
+                add('chk_send %s %s %d %s %d %d %d %s' % (c_tab(calls), c_sess(st), rseq, C.c_hex(sdu), seq2, rseq2, code,
+                                                         C.c_hex(dg or b'')), ('send', st, sdu.hex(), rseq))
+            else:
+                code, pdu, seq2, calls = impl_pack(st, sdu)
+                add('chk_pack %s %s %s %d %d %s' % (c_tab(calls), c_sess(st), c_sdu(sdu), seq2, code, C.c_hex(pdu or b'')),
+                    ('pack', st, None if sdu is None else sdu.hex()))
+                if st is not None and st['sid'] < (1 << 32) and st['seq'] < (1 << 32):
+                    # _pack_auth_code_md5 called directly (no increment): what goes into hashlib.md5
+                    m = rmcp.IpmiMsg(mk_session(st))
+                    if P.has(m, '_pack_auth_code_md5'):      # optional: the table of hashed inputs above covers it too
+                        with md5_recorded() as rec:
+                            code2, _ = attempt(lambda: m._pack_auth_code_md5(sdu))
+                        add('chk_preimage %s %s %d %s' % (c_sess(st), c_sdu(sdu), code2,
+                                                          C.c_hex(rec.calls[0] if rec.calls else b'')), ('preimage', st))
+            supported = st is None or (st['auth'] in (0, 2, 4) and st['pw'] is not None and len(pw_bytes(st['pw'])) <= 16
+                                       and st['sid'] < (1 << 32) and st['seq'] < (1 << 32))
+            if via_send and supported and len(sdu) <= 255 and 0 <= rseq <= 255:
+                oracle('send', {'st': st, 'data': sdu.hex(), 'rseq': rseq},
+                       'IpmiMsg.pack:auth%s:%s' % (st['auth'] if st else 'nosession',
+                                                   'activated' if st and st['act'] else 'not-activated'))
+            D.add(('pack', repr(st), sdu, via_send, rseq), True,
+                  'pack-auth-%s' % (st['auth'] if st else 'nosession'))
 
-    # every payload length 0..255 under each implemented type, activated and not
-    for n in range(0, 256):
-        for auth in (0, 2, 4):
-            if q and auth != 2 and n % 4 not in (0, 3) and n > 40:
-                continue
-            st = {'auth': auth, 'sid': rid(), 'seq': rid(), 'act': rng.random() < 0.7, 'pw': rng.choice(okpw)}
-            one_pack(st, bytes(rng.randrange(256) for _ in range(n)), True)
-    # boundary ids x ids, activated / not
-    for sid in IDS:
-        for seq in IDS:
-            for auth in (2, 4, 0):
-                st = {'auth': auth, 'sid': sid, 'seq': seq, 'act': (sid + seq + auth) % 3 != 0, 'pw': rng.choice(okpw)}
-                one_pack(st, bytes(rng.randrange(256) for _ in range(rng.choice([0, 1, 7, 20]))), auth != 0 or seq % 2 == 0)
-    # every password (None, str, bytes, lengths 0..16) under password and MD5
-    for p in pws + ['hex:' + bytes(17).hex(), 'str:' + 'y' * 20]:
-        for auth in (4, 2):
-            st = {'auth': auth, 'sid': rid(), 'seq': rid(), 'act': rng.random() < 0.5, 'pw': p}
-            one_pack(st, bytes(rng.randrange(256) for _ in range(rng.choice([0, 3, 9]))), True)
-            one_pack(st, rng.choice([None, b'', b'\x01\x02']), False)
-    # unsupported / malformed session states, no session, None payload, over-long payload
-    for auth in (1, 5, 3, 6, 255, 256, None):
-        for act in (True, False):
-            st = {'auth': auth, 'sid': rid(), 'seq': rid(), 'act': act, 'pw': rng.choice(pws)}
-            one_pack(st, b'\x20\x18\xc8', True)
-            one_pack(st, None, False)
-    for st in (None, {'auth': 0, 'sid': 1 << 32, 'seq': 5, 'act': True, 'pw': None},
-               {'auth': 2, 'sid': 7, 'seq': 1 << 32, 'act': False, 'pw': 'str:a'},
-               {'auth': 4, 'sid': 7, 'seq': (1 << 32) - 1, 'act': True, 'pw': 'str:a'}):
-        for sdu in (None, b'', b'\x01', bytes(255), bytes(256), bytes(300)):
-            one_pack(st, sdu, False)
-            if sdu is not None:
-                one_pack(st, sdu, True)
-    # RMCP sequence number handling of _send_rmcp_msg, RmcpMsg.pack
-    for rseq in list(range(0, 256)) + [256, 300]:
-        st = {'auth': 0, 'sid': 1, 'seq': 1, 'act': True, 'pw': None}
-        one_pack(st, b'\x01\x02', True, rseq)
-    for sdu in (None, b'', b'\x11\x22\x33\x44'):
-        for seq, cls in ((0xff, 7), (0, 6), (3, 8), (256, 7), (1, 256)):
-            code, pdu = attempt(lambda: rmcp.RmcpMsg(cls).pack(sdu, seq))
-            add('chk_rmcp_pack %s %d %d %d %s' % (c_sdu(sdu), seq, cls, code, C.c_hex(pdu or b'')), ('rmcp_pack', seq, cls))
+        # every payload length 0..255 under each implemented type, activated and not
+        for n in range(0, 256):
+            for auth in (0, 2, 4):
+                if q and auth != 2 and n % 4 not in (0, 3) and n > 40:
+                    continue
+                st = {'auth': auth, 'sid': rid(), 'seq': rid(), 'act': rng.random() < 0.7, 'pw': rng.choice(okpw)}
+                one_pack(st, bytes(rng.randrange(256) for _ in range(n)), True)
+        # boundary ids x ids, activated / not
+        for sid in IDS:
+            for seq in IDS:
+                for auth in (2, 4, 0):
+                    st = {'auth': auth, 'sid': sid, 'seq': seq, 'act': (sid + seq + auth) % 3 != 0, 'pw': rng.choice(okpw)}
+                    one_pack(st, bytes(rng.randrange(256) for _ in range(rng.choice([0, 1, 7, 20]))), auth != 0 or seq % 2 == 0)
+        # every password (None, str, bytes, lengths 0..16) under password and MD5
+        for p in pws + ['hex:' + bytes(17).hex(), 'str:' + 'y' * 20]:
+            for auth in (4, 2):
+                st = {'auth': auth, 'sid': rid(), 'seq': rid(), 'act': rng.random() < 0.5, 'pw': p}
+                one_pack(st, bytes(rng.randrange(256) for _ in range(rng.choice([0, 3, 9]))), True)
+                one_pack(st, rng.choice([None, b'', b'\x01\x02']), False)
+        # unsupported / malformed session states, no session, None payload, over-long payload
+        for auth in (1, 5, 3, 6, 255, 256, None):
+            for act in (True, False):
+                st = {'auth': auth, 'sid': rid(), 'seq': rid(), 'act': act, 'pw': rng.choice(pws)}
+                one_pack(st, b'\x20\x18\xc8', True)
+                one_pack(st, None, False)
+        for st in (None, {'auth': 0, 'sid': 1 << 32, 'seq': 5, 'act': True, 'pw': None},
+                   {'auth': 2, 'sid': 7, 'seq': 1 << 32, 'act': False, 'pw': 'str:a'},
+                   {'auth': 4, 'sid': 7, 'seq': (1 << 32) - 1, 'act': True, 'pw': 'str:a'}):
+            for sdu in (None, b'', b'\x01', bytes(255), bytes(256), bytes(300)):
+                one_pack(st, sdu, False)
+                if sdu is not None:
+                    one_pack(st, sdu, True)
+        # RMCP sequence number handling of _send_rmcp_msg, RmcpMsg.pack
+        for rseq in list(range(0, 256)) + [256, 300]:
+            st = {'auth': 0, 'sid': 1, 'seq': 1, 'act': True, 'pw': None}
+            one_pack(st, b'\x01\x02', True, rseq)
+        for sdu in (None, b'', b'\x11\x22\x33\x44'):
+            for seq, cls in ((0xff, 7), (0, 6), (3, 8), (256, 7), (1, 256)):
+                code, pdu = attempt(lambda: rmcp.RmcpMsg(cls).pack(sdu, seq))
+                add('chk_rmcp_pack %s %d %d %d %s' % (c_sdu(sdu), seq, cls, code, C.c_hex(pdu or b'')), ('rmcp_pack', seq, cls))
 
     # ---- received side
-    def recv_case(d, qk, kind):
-        code, data = impl_recv(qk, d)
-        add('chk_recv %s %s %d %s' % (C.c_bool(qk), C.c_hex(d), code, C.c_hex(data or b'')), (kind, qk, d.hex()))
-        oracle('recv', {'dgram': d.hex(), 'quirk': qk}, 'receive:%s:%s' % (kind, 'quirk' if qk else 'strict'))
-        D.add(('recv', d, qk), True, 'recv-' + kind)
+    with stage('received side'):
+        def recv_case(d, qk, kind):
+            out = impl_recv(qk, d)
+            if out is not None and out[0] == 'rmcp':
+                add('chk_recv %s %s %d %s' % (C.c_bool(qk), C.c_hex(d), out[1], C.c_hex(out[2] or b'')), (kind, qk, d.hex()))
+            elif not qk:
+                unpack_cases(d)         # observed through the public classes: RmcpMsg.unpack, IpmiMsg.unpack (both settings)
+            oracle('recv', {'dgram': d.hex(), 'quirk': qk}, 'receive:%s:%s' % (kind, 'quirk' if qk else 'strict'))
+            D.add(('recv', d, qk), True, 'recv-' + kind)
 
-    def unpack_cases(d):
-        code, sdu = attempt(lambda: rmcp.RmcpMsg().unpack(d))
-        m = rmcp.RmcpMsg()
-        code, _ = attempt(lambda: m.unpack(d))
-        add('chk_rmcp_unpack %s %d %d %d %s' % (C.c_hex(d), code, (m.seq_number or 0) if code == 0 else 0,
-                                                (m.class_of_msg or 0) if code == 0 else 0,
-                                                C.c_hex(sdu or b'')), ('rmcp_unpack', d.hex()))
-        pdu = d[4:]
-        for qk in (False, True):
-            code, sdu = attempt(lambda: rmcp.IpmiMsg(ignore_sdu_length=qk).unpack(pdu))
-            add('chk_ipmi_unpack %s %s %d %s' % (C.c_bool(qk), C.c_hex(pdu), code,
-                                                 c_sdu(None if sdu is None else bytes(sdu))), ('ipmi_unpack', qk, pdu.hex()))
-
-    valid = []
-    for auth in (0, 2, 4):
-        for n in ([0, 1, 7, 17, 33] if q else [0, 1, 2, 7, 16, 17, 33, 64, 255]):
-            valid.append(spec_datagram(auth, rid(), rid(), pw_bytes(rng.choice(okpw)),
-                                       bytes(rng.randrange(256) for _ in range(n))))
-    # the alteration that turns "no code" into "code present" and stays consistent
-    pl = bytearray(rng.randrange(256) for _ in range(40))
-    pl[15] = 40 - 16
-    valid.append(spec_datagram(0, 5, 6, b'', bytes(pl)))
-    for d in valid:
-        hdr = 4 + (10 if d[4] == 0 else 26)
-        for qk in (False, True):
-            recv_case(d, qk, 'valid')
-            for k in range(0, len(d)):                       # every truncation
-                recv_case(d[:k], qk, 'truncated')
-            for k in (1, 2, 3):                              # 1..3 byte extensions
-                recv_case(d + bytes(rng.randrange(256) for _ in range(k)), qk, 'extended')
-            for i in range(hdr):                             # every header byte altered
-                vals = {d[i] ^ 1, d[i] ^ 0x80, rng.randrange(256), 0, 6, 7, (d[i] + 1) % 256, (d[i] - 1) % 256}
-                if q and 5 <= i < hdr - 1:
-                    vals = {d[i] ^ 1, d[i] ^ 0x80, rng.randrange(256), 0}     # ids / numbers / code bytes: not looked at
-                if i in (0, 3, 4, hdr - 1) and not q:
-                    vals = set(range(256))
-                for b in sorted(vals - {d[i]}):
-                    recv_case(d[:i] + bytes([b]) + d[i + 1:], qk, 'altered-byte-%d' % (i if i < 5 else -1))
-        for k in list(range(0, min(len(d), 34))) + [len(d)]:
-            unpack_cases(d[:k])
-        unpack_cases(d + b'\x00')
-    # the receive side as exhaustive as the send side: EVERY payload length 0..255 under each type and
-    # both quirk settings, through Rmcp._receive_ipmi_msg and IpmiMsg.unpack alone; around the
-    # signed-byte / length-byte boundaries also one-off length bytes, truncations and extensions
-    for n in range(0, 256):
-        for auth in (0, 2, 4):
-            d = spec_datagram(auth, rid(), rid(), pw_bytes(rng.choice(okpw)), bytes(rng.randrange(256) for _ in range(n)))
+        def unpack_cases(d):
+            code, sdu = attempt(lambda: rmcp.RmcpMsg().unpack(d))
+            m = rmcp.RmcpMsg()
+            code, _ = attempt(lambda: m.unpack(d))
+            add('chk_rmcp_unpack %s %d %d %d %s' % (C.c_hex(d), code, (m.seq_number or 0) if code == 0 else 0,
+                                                    (m.class_of_msg or 0) if code == 0 else 0,
+                                                    C.c_hex(sdu or b'')), ('rmcp_unpack', d.hex()))
+            pdu = d[4:]
             for qk in (False, True):
-                recv_case(d, qk, 'valid-len-all')
-                code, sdu = attempt(lambda: rmcp.IpmiMsg(ignore_sdu_length=qk).unpack(d[4:]))
-                if not (q and qk and n % 8 not in (0, 7)):       # quick: model comparison of unpack alone with the
-                    add('chk_ipmi_unpack %s %s %d %s' % (         # check disabled on a quarter of the lengths (the
-                        C.c_bool(qk), C.c_hex(d[4:]), code,       # oracle and chk_recv above see every length)
-                        c_sdu(None if sdu is None else bytes(sdu))), ('ipmi_unpack-len', qk, auth, n))
-                res.evaluations += 1
-                if n > 0 and (code != 0 or sdu is None or bytes(sdu) != d[-n:]) and 'IpmiMsg.unpack:valid' not in fails:
-                    fails['IpmiMsg.unpack:valid'] = C.Violation(
-                        key='IpmiMsg.unpack:valid', what='IpmiMsg(ignore_sdu_length=%s).unpack of a well-formed PDU (type %d, %d '
-                        'payload bytes): %s' % (qk, auth, n, 'exception class %d' % code if code else 'wrong payload'),
-                        replay={'oracle': 'recv', 'input': {'dgram': d.hex(), 'quirk': qk}})
-            if n in (0, 1, 126, 127, 128, 129, 254, 255):
-                hl = 4 + (10 if auth == 0 else 26)
+                code, sdu = attempt(lambda: rmcp.IpmiMsg(ignore_sdu_length=qk).unpack(pdu))
+                add('chk_ipmi_unpack %s %s %d %s' % (C.c_bool(qk), C.c_hex(pdu), code,
+                                                     c_sdu(None if sdu is None else bytes(sdu))), ('ipmi_unpack', qk, pdu.hex()))
+
+        valid = []
+        for auth in (0, 2, 4):
+            for n in ([0, 1, 7, 17, 33] if q else [0, 1, 2, 7, 16, 17, 33, 64, 255]):
+                valid.append(spec_datagram(auth, rid(), rid(), pw_bytes(rng.choice(okpw)),
+                                           bytes(rng.randrange(256) for _ in range(n))))
+        # the alteration that turns "no code" into "code present" and stays consistent
+        pl = bytearray(rng.randrange(256) for _ in range(40))
+        pl[15] = 40 - 16
+        valid.append(spec_datagram(0, 5, 6, b'', bytes(pl)))
+        for d in valid:
+            hdr = 4 + (10 if d[4] == 0 else 26)
+            for qk in (False, True):
+                recv_case(d, qk, 'valid')
+                for k in range(0, len(d)):                       # every truncation
+                    recv_case(d[:k], qk, 'truncated')
+                for k in (1, 2, 3):                              # 1..3 byte extensions
+                    recv_case(d + bytes(rng.randrange(256) for _ in range(k)), qk, 'extended')
+                for i in range(hdr):                             # every header byte altered
+                    vals = {d[i] ^ 1, d[i] ^ 0x80, rng.randrange(256), 0, 6, 7, (d[i] + 1) % 256, (d[i] - 1) % 256}
+                    if q and 5 <= i < hdr - 1:
+                        vals = {d[i] ^ 1, d[i] ^ 0x80, rng.randrange(256), 0}     # ids / numbers / code bytes: not looked at
+                    if i in (0, 3, 4, hdr - 1) and not q:
+                        vals = set(range(256))
+                    for b in sorted(vals - {d[i]}):
+                        recv_case(d[:i] + bytes([b]) + d[i + 1:], qk, 'altered-byte-%d' % (i if i < 5 else -1))
+            for k in list(range(0, min(len(d), 34))) + [len(d)]:
+                unpack_cases(d[:k])
+            unpack_cases(d + b'\x00')
+        # the receive side as exhaustive as the send side: EVERY payload length 0..255 under each type and
+        # both quirk settings, through Rmcp._receive_ipmi_msg and IpmiMsg.unpack alone; around the
+        # signed-byte / length-byte boundaries also one-off length bytes, truncations and extensions
+        for n in range(0, 256):
+            for auth in (0, 2, 4):
+                d = spec_datagram(auth, rid(), rid(), pw_bytes(rng.choice(okpw)), bytes(rng.randrange(256) for _ in range(n)))
                 for qk in (False, True):
-                    for k in (1, 2):
-                        recv_case(d[:len(d) - k] if n >= k else d[:hl], qk, 'boundary-truncated')
-                    for k in (1, 2, 3):
-                        recv_case(d + bytes(rng.randrange(256) for _ in range(k)), qk, 'boundary-extended')
-                    for delta in (1, -1, 128, 127):
-                        recv_case(d[:hl - 1] + bytes([(d[hl - 1] + delta) % 256]) + d[hl:], qk, 'boundary-length-byte')
-    for _ in range(100 if q else 2000):                      # arbitrary bytes
-        d = bytes(rng.randrange(256) for _ in range(rng.choice([0, 1, 3, 4, 5, 13, 14, 15, 30, 31, 40])))
-        if len(d) > 3 and rng.random() < 0.8:
-            d = bytes([6, d[1], d[2], 7]) + d[4:]
-        recv_case(d, rng.random() < 0.5, 'random')
+                    recv_case(d, qk, 'valid-len-all')
+                    code, sdu = attempt(lambda: rmcp.IpmiMsg(ignore_sdu_length=qk).unpack(d[4:]))
+                    if not (q and qk and n % 8 not in (0, 7)):       # quick: model comparison of unpack alone with the
+                        add('chk_ipmi_unpack %s %s %d %s' % (         # check disabled on a quarter of the lengths (the
+                            C.c_bool(qk), C.c_hex(d[4:]), code,       # oracle and chk_recv above see every length)
+                            c_sdu(None if sdu is None else bytes(sdu))), ('ipmi_unpack-len', qk, auth, n))
+                    res.evaluations += 1
+                    if n > 0 and (code != 0 or sdu is None or bytes(sdu) != d[-n:]) and 'IpmiMsg.unpack:valid' not in fails:
+                        fails['IpmiMsg.unpack:valid'] = C.Violation(
+                            key='IpmiMsg.unpack:valid', what='IpmiMsg(ignore_sdu_length=%s).unpack of a well-formed PDU (type %d, %d '
+                            'payload bytes): %s' % (qk, auth, n, 'exception class %d' % code if code else 'wrong payload'),
+                            replay={'oracle': 'recv', 'input': {'dgram': d.hex(), 'quirk': qk}})
+                if n in (0, 1, 126, 127, 128, 129, 254, 255):
+                    hl = 4 + (10 if auth == 0 else 26)
+                    for qk in (False, True):
+                        for k in (1, 2):
+                            recv_case(d[:len(d) - k] if n >= k else d[:hl], qk, 'boundary-truncated')
+                        for k in (1, 2, 3):
+                            recv_case(d + bytes(rng.randrange(256) for _ in range(k)), qk, 'boundary-extended')
+                        for delta in (1, -1, 128, 127):
+                            recv_case(d[:hl - 1] + bytes([(d[hl - 1] + delta) % 256]) + d[hl:], qk, 'boundary-length-byte')
+        for _ in range(100 if q else 2000):                      # arbitrary bytes
+            d = bytes(rng.randrange(256) for _ in range(rng.choice([0, 1, 3, 4, 5, 13, 14, 15, 30, 31, 40])))
+            if len(d) > 3 and rng.random() < 0.8:
+                d = bytes([6, d[1], d[2], 7]) + d[4:]
+            recv_case(d, rng.random() < 0.5, 'random')
 
     # ---- ASF
-    code, pdu = attempt(lambda: rmcp.AsfPing().pack())
-    add('chk_ping %d %s' % (code, C.c_hex(pdu or b'')), ('ping',))
-    oracle('ping', {}, 'AsfPing:bytes')
+    with stage('ASF'):
+        code, pdu = attempt(lambda: rmcp.AsfPing().pack())
+        add('chk_ping %d %s' % (code, C.c_hex(pdu or b'')), ('ping',))
+        oracle('ping', {}, 'AsfPing:bytes')
 
-    def pong_case(d, kind, expect):
-        code, v = impl_recv_pong(d)
-        add('chk_recv_pong %s %d %s' % (C.c_hex(d), code, C.c_list([str(x) for x in (v or [])])), (kind, d.hex()))
-        code, v = attempt(lambda: _pong_fields(rmcp, d[4:]))
-        add('chk_pong %s %d %s' % (C.c_hex(d[4:]), code, C.c_list([str(x) for x in (v or [])])), (kind + '-sdu', d.hex()))
-        oracle('pong', {'dgram': d.hex(), 'expect': expect}, 'AsfPong:' + kind)
-        D.add(('pong', d), True, 'pong-' + kind)
+        def pong_case(d, kind, expect):
+            code, v = impl_recv_pong(d)
+            add('chk_recv_pong %s %d %s' % (C.c_hex(d), code, C.c_list([str(x) for x in (v or [])])), (kind, d.hex()))
+            code, v = attempt(lambda: _pong_fields(rmcp, d[4:]))
+            add('chk_pong %s %d %s' % (C.c_hex(d[4:]), code, C.c_list([str(x) for x in (v or [])])), (kind + '-sdu', d.hex()))
+            oracle('pong', {'dgram': d.hex(), 'expect': expect}, 'AsfPong:' + kind)
+            D.add(('pong', d), True, 'pong-' + kind)
 
-    pongs = [spec_pong(), spec_pong(tag=0), spec_pong(entities=0x01), spec_pong(oem_iana=343, oem_def=0x01020304),
-             spec_pong(oem_iana=0), spec_pong(entities=0x80)]
-    for p in pongs:
-        pong_case(p, 'valid', 'accept')
-    for p in pongs[:2] + [pongs[3]]:
-        for k in range(len(p)):
-            pong_case(p[:k], 'truncated', 'reject-structure')
-        for k in (1, 2, 3):
-            pong_case(p + bytes(k), 'extended', 'reject-structure')
-        for i in range(len(p)):
-            for b in sorted({p[i] ^ 1, p[i] ^ 0x80, rng.randrange(256), 0, 0x40, 0x80, 16} - {p[i]}):
-                pong_case(p[:i] + bytes([b]) + p[i + 1:], 'altered', 'reject-structure')
-    pong_case(spec_pong(oem_iana=4542, oem_def=1), 'asf-oem-defined-nonzero', 'reject-structure')
-    pong_case(spec_pong(interactions=0x80), 'interactions-nonzero', 'reject-structure')
+        pongs = [spec_pong(), spec_pong(tag=0), spec_pong(entities=0x01), spec_pong(oem_iana=343, oem_def=0x01020304),
+                 spec_pong(oem_iana=0), spec_pong(entities=0x80)]
+        for p in pongs:
+            pong_case(p, 'valid', 'accept')
+        for p in pongs[:2] + [pongs[3]]:
+            for k in range(len(p)):
+                pong_case(p[:k], 'truncated', 'reject-structure')
+            for k in (1, 2, 3):
+                pong_case(p + bytes(k), 'extended', 'reject-structure')
+            for i in range(len(p)):
+                for b in sorted({p[i] ^ 1, p[i] ^ 0x80, rng.randrange(256), 0, 0x40, 0x80, 16} - {p[i]}):
+                    pong_case(p[:i] + bytes([b]) + p[i + 1:], 'altered', 'reject-structure')
+        pong_case(spec_pong(oem_iana=4542, oem_def=1), 'asf-oem-defined-nonzero', 'reject-structure')
+        pong_case(spec_pong(interactions=0x80), 'interactions-nonzero', 'reject-structure')
 
     # ---- the quirk through the public path: interface created with / without it, reply with a wrong length byte
-    qp_done = []
-    for via in ('ctor', 'create_interface'):
-        for quirk in (True, None, False):
-            for auth in (0, 4, 2):
-                for delta, zero in ((0, False), (1, False), (-1, False), (5, False), (0, True), (rng.randrange(6, 250), False)):
-                    st = None if auth == 0 else {'auth': auth, 'sid': rid(), 'seq': rid(), 'act': True, 'pw': rng.choice(okpw)}
-                    inp = {'via': via, 'quirk': quirk, 'auth': auth, 'delta': delta, 'zero': zero, 'st': st,
-                           'rsp': bytes([0] + [rng.randrange(256) for _ in range(rng.choice([0, 3, 15]))]).hex(),
-                           'raw': bytes([rng.choice([1, 0x22, 0x46])] + [rng.randrange(256) for _ in range(rng.choice([0, 2]))]).hex(),
-                           'lun': rng.randrange(4), 'netfn': rng.choice([6, 0x0a, 0x2c])}
-                    key = 'Rmcp:%s:reply-length-byte-%s' % ('quirk-enabled' if quirk else 'no-quirk',
-                                                            'wrong' if (zero or delta) else 'correct')
-                    res.evaluations += 1
-                    msg = oracle_quirk_public(inp)
-                    if msg and key not in fails:
-                        # interfaces created earlier in this process are part of the input unless the case
-                        # fails from a clean start
-                        if not C.holds_in_fresh_process('C05', {'oracle': 'quirk_public', 'input': inp}):
-                            fails[key] = C.Violation(key=key, what=msg, replay={'oracle': 'quirk_public', 'input': inp})
-                        else:
-                            seq = C.shrink_history('C05', 'quirk_public_seq', qp_done + [inp])
-                            fails[key] = C.Violation(
-                                key=key, what=msg + ' [history of %d interface(s)%s]' % (
-                                    len(seq or qp_done) , '' if seq else ', not reproduced from a clean start'),
-                                replay={'oracle': 'quirk_public_seq', 'input': {'calls': seq or qp_done + [inp]}},
-                                found_input=bool(seq))
-                    qp_done.append(inp)
-                    D.add(('qp', repr(inp)), True, 'quirk-public-path')
+    with stage('the quirk through the public path'):
+        qp_done = []
+        for via in ('ctor', 'create_interface'):
+            for quirk in (True, None, False):
+                for auth in (0, 4, 2):
+                    for delta, zero in ((0, False), (1, False), (-1, False), (5, False), (0, True), (rng.randrange(6, 250), False)):
+                        st = None if auth == 0 else {'auth': auth, 'sid': rid(), 'seq': rid(), 'act': True, 'pw': rng.choice(okpw)}
+                        inp = {'via': via, 'quirk': quirk, 'auth': auth, 'delta': delta, 'zero': zero, 'st': st,
+                               'rsp': bytes([0] + [rng.randrange(256) for _ in range(rng.choice([0, 3, 15]))]).hex(),
+                               'raw': bytes([rng.choice([1, 0x22, 0x46])] + [rng.randrange(256) for _ in range(rng.choice([0, 2]))]).hex(),
+                               'lun': rng.randrange(4), 'netfn': rng.choice([6, 0x0a, 0x2c])}
+                        key = 'Rmcp:%s:reply-length-byte-%s' % ('quirk-enabled' if quirk else 'no-quirk',
+                                                                'wrong' if (zero or delta) else 'correct')
+                        res.evaluations += 1
+                        msg = oracle_quirk_public(inp)
+                        if msg and key not in fails:
+                            # interfaces created earlier in this process are part of the input unless the case
+                            # fails from a clean start
+                            if not C.holds_in_fresh_process('C05', {'oracle': 'quirk_public', 'input': inp}):
+                                fails[key] = C.Violation(key=key, what=msg, replay={'oracle': 'quirk_public', 'input': inp})
+                            else:
+                                seq = C.shrink_history('C05', 'quirk_public_seq', qp_done + [inp])
+                                fails[key] = C.Violation(
+                                    key=key, what=msg + ' [history of %d interface(s)%s]' % (
+                                        len(seq or qp_done) , '' if seq else ', not reproduced from a clean start'),
+                                    replay={'oracle': 'quirk_public_seq', 'input': {'calls': seq or qp_done + [inp]}},
+                                    found_input=bool(seq))
+                        qp_done.append(inp)
+                        D.add(('qp', repr(inp)), True, 'quirk-public-path')
 
     # ---- end to end: Rmcp.send_and_receive(req) for registered request classes with in-range values
-    from . import codec_util as U
-    import pyipmi
-    names = [n for n in U.registry_names() if n.endswith('Req') and isinstance(U.fields_of(U.cls_of(n)), (tuple, list))]
-    picked = ['SetWatchdogTimerReq', 'ActivateSessionReq', 'GetDeviceIdReq'] + \
-        [rng.choice(names) for _ in range(50 if q else 400)]
-    for name in picked:
-        cls = U.cls_of(name)
-        try:
-            env = U.gen_in_range(cls, rng, 'random', None) if U.fields_of(cls) else []
-        except Exception:  # noqa  (classes the generator cannot fill are C01's business)
-            continue
-        st = rng.choice([None, None] + [{'auth': a, 'sid': rid(), 'seq': rid(), 'act': rng.random() < 0.7,
-                                         'pw': rng.choice(okpw)} for a in (0, 2, 4)])
-        sess = mk_session(st)
-        rs_sa, sl, nseq, lun = rng.randrange(2, 256, 2), rng.randrange(0, 256), rng.randrange(64), rng.randrange(4)
-        itf = rmcp.Rmcp(slave_address=sl)
-        itf._sock = FakeSock()
-        itf.host, itf.port = 'bmc', 623
-        itf._session = sess
-        itf.next_sequence_number = nseq
-        req = cls()
-        U.set_env(req, env)
-        req.target = pyipmi.Target(rs_sa)
-        req.lun = lun
-        with md5_recorded() as rec:
-            code, _ = attempt(lambda: itf.send_and_receive(req))
-        sent = itf._sock.sent
-        if sent:
-            code = 0        # the datagram went out; the RetryError is the missing reply
-        h = [rs_sa, lun, sl, 0, (nseq + 1) % 64, req.netfn, req.cmdid]
-        add('chk_e2e %s %s %s %s %s 255 %d %d %d %s' % (
-            c_tab(rec.calls), C.c_str(name), U.c_env(env), C.c_list([str(x) for x in h]), c_sess(st),
-            sess.sequence_number if sess is not None else 0, itf.seq_number, code, C.c_hex(sent[0] if sent else b'')),
-            ('e2e', name, st))
-        D.add(('e2e', name, repr(env), repr(st), tuple(h)), True, 'end-to-end')
+    with stage('end to end'):
+        from . import codec_util as U
+        import pyipmi
+        names = [n for n in U.registry_names() if n.endswith('Req') and isinstance(U.fields_of(U.cls_of(n)), (tuple, list))]
+        picked = ['SetWatchdogTimerReq', 'ActivateSessionReq', 'GetDeviceIdReq'] + \
+            [rng.choice(names) for _ in range(50 if q else 400)]
+        for name in picked:
+            cls = U.cls_of(name)
+            try:
+                env = U.gen_in_range(cls, rng, 'random', None) if U.fields_of(cls) else []
+            except Exception:  # noqa  (classes the generator cannot fill are C01's business)
+                continue
+            st = rng.choice([None, None] + [{'auth': a, 'sid': rid(), 'seq': rid(), 'act': rng.random() < 0.7,
+                                             'pw': rng.choice(okpw)} for a in (0, 2, 4)])
+            sess = mk_session(st)
+            rs_sa, sl, nseq, lun = rng.randrange(2, 256, 2), rng.randrange(0, 256), rng.randrange(64), rng.randrange(4)
+            sock = FakeSock()
+            itf = P.new_interface(sock, slave_address=sl)
+            P.attach_session(itf, sock, sess)
+            itf.next_sequence_number = nseq
+            req = cls()
+            U.set_env(req, env)
+            req.target = pyipmi.Target(rs_sa)
+            req.lun = lun
+            with md5_recorded() as rec:
+                code, _ = attempt(lambda: itf.send_and_receive(req))
+            sent = sock.sent
+            if sent:
+                code = 0        # the datagram went out; the RetryError is the missing reply
+            h = [rs_sa, lun, sl, 0, (nseq + 1) % 64, req.netfn, req.cmdid]
+            add('chk_e2e %s %s %s %s %s 255 %d %d %d %s' % (
+                c_tab(rec.calls), C.c_str(name), U.c_env(env), C.c_list([str(x) for x in h]), c_sess(st),
+                sess.sequence_number if sess is not None else 0, getattr(itf, 'seq_number', 255), code, C.c_hex(sent[0] if sent else b'')),
+                ('e2e', name, st))
+            D.add(('e2e', name, repr(env), repr(st), tuple(h)), True, 'end-to-end')
 
     # ---- histories in one process (the model is stateless per call / object: any dependence of
-    # the implementation on what happened before shows up as a difference at some step)
-    def history(oname, calls, key, steps_terms):
-        steps_terms(calls)
-        res.evaluations += 1
-        msg = ORACLES[oname]({'calls': calls})
-        if msg and key not in fails:
-            seq = C.shrink_history('C05', oname, calls)
-            fails[key] = C.Violation(
-                key=key, what=((ORACLES[oname]({'calls': seq}) if seq else None) or msg) +
-                ' [history of %d call(s)%s]' % (len(seq or calls), '' if seq else ', not reproduced from a clean start'),
-                replay={'oracle': oname, 'input': {'calls': seq or calls}}, found_input=bool(seq))
+    with stage('histories in one process'):
+        # the implementation on what happened before shows up as a difference at some step)
+        def history(oname, calls, key, steps_terms):
+            steps_terms(calls)
+            res.evaluations += 1
+            msg = ORACLES[oname]({'calls': calls})
+            if msg and key not in fails:
+                seq = C.shrink_history('C05', oname, calls)
+                fails[key] = C.Violation(
+                    key=key, what=((ORACLES[oname]({'calls': seq}) if seq else None) or msg) +
+                    ' [history of %d call(s)%s]' % (len(seq or calls), '' if seq else ', not reproduced from a clean start'),
+                    replay={'oracle': oname, 'input': {'calls': seq or calls}}, found_input=bool(seq))
 
-    def quirk_terms(calls):
-        for n, c, kind, qk, code, data in quirk_seq_steps(calls):
-            d = bytes.fromhex(c[2])
-            if kind == 'rmcp':
-                add('chk_recv %s %s %d %s' % (C.c_bool(qk), C.c_hex(d), code, C.c_hex(data or b'')), ('history-recv', c[1], qk, c[2]))
-            else:
-                add('chk_ipmi_unpack %s %s %d %s' % (C.c_bool(qk), C.c_hex(d[4:]), code, c_sdu(data if data else None)),
-                    ('history-unpack', c[1], qk, c[2]))
-            D.add(('hq', n, tuple(c), qk), True, 'history-quirk')
+        def quirk_terms(calls):
+            for n, c, kind, qk, code, data in quirk_seq_steps(calls):
+                d = bytes.fromhex(c[2])
+                if kind == 'rmcp-public':
+                    continue        # judged by the oracle only (the reply is rebuilt around a matching frame)
+                if kind == 'rmcp':
+                    add('chk_recv %s %s %d %s' % (C.c_bool(qk), C.c_hex(d), code, C.c_hex(data or b'')), ('history-recv', c[1], qk, c[2]))
+                else:
+                    add('chk_ipmi_unpack %s %s %d %s' % (C.c_bool(qk), C.c_hex(d[4:]), code, c_sdu(data if data else None)),
+                        ('history-unpack', c[1], qk, c[2]))
+                D.add(('hq', n, tuple(c), qk), True, 'history-quirk')
 
-    def wrong_len(d, delta):
-        hl = 4 + (10 if d[4] == 0 else 26)
-        return d[:hl - 1] + bytes([(d[hl - 1] + delta) % 256]) + d[hl:]
+        def wrong_len(d, delta):
+            hl = 4 + (10 if d[4] == 0 else 26)
+            return d[:hl - 1] + bytes([(d[hl - 1] + delta) % 256]) + d[hl:]
 
-    vsmall = [v for v in valid if 1 <= len(v) - (14 if v[4] == 0 else 30) <= 40]
-    for h in range(6 if q else 40):
-        settings = [True, None, False, None, True, False]
-        rng.shuffle(settings)
-        if h == 0:
-            settings = [True, None, None, False, None, True]      # quirk first, then default objects
-        elif h == 1:
-            settings = [None, True, None, False, True, None]
-        calls, made = [], []
-        for i, st_ in enumerate(settings):
-            kind = 'rmcp' if (h + i) % 3 != 2 else 'msg'
-            calls.append([kind, 'o%d' % i, st_])
-            made.append('o%d' % i)
-            for _ in range(rng.choice([2, 3, 4])):
-                d = rng.choice(vsmall)
-                d = rng.choice([d, wrong_len(d, 1), wrong_len(d, -2), wrong_len(d, -1), d + b'\x00', d[:-1], wrong_len(d, 3)])
-                calls.append(['recv', rng.choice(made), d.hex()])
-        history('quirk_seq', calls, 'history:length-check-setting-depends-on-other-objects', quirk_terms)
+        vsmall = [v for v in valid if 1 <= len(v) - (14 if v[4] == 0 else 30) <= 40]
+        for h in range(6 if q else 40):
+            settings = [True, None, False, None, True, False]
+            rng.shuffle(settings)
+            if h == 0:
+                settings = [True, None, None, False, None, True]      # quirk first, then default objects
+            elif h == 1:
+                settings = [None, True, None, False, True, None]
+            calls, made = [], []
+            for i, st_ in enumerate(settings):
+                kind = 'rmcp' if (h + i) % 3 != 2 else 'msg'
+                calls.append([kind, 'o%d' % i, st_])
+                made.append('o%d' % i)
+                for _ in range(rng.choice([2, 3, 4])):
+                    d = rng.choice(vsmall)
+                    d = rng.choice([d, wrong_len(d, 1), wrong_len(d, -2), wrong_len(d, -1), d + b'\x00', d[:-1], wrong_len(d, 3)])
+                    calls.append(['recv', rng.choice(made), d.hex()])
+            history('quirk_seq', calls, 'history:length-check-setting-depends-on-other-objects', quirk_terms)
 
-    def pack_terms(calls):
-        for n, c, st, code, dg, seq2, md5calls in pack_seq_steps(calls):
-            add('chk_send %s %s 255 %s %d 255 %d %s' % (c_tab(md5calls), c_sess(st), C.c_hex(bytes.fromhex(c[2])), seq2, code,
-                                                       C.c_hex(dg or b'')), ('history-send', st, c[2]))
-            D.add(('hp', n, repr(st), c[2]), True, 'history-pack')
+        def pack_terms(calls):
+            for n, c, st, code, dg, seq2, md5calls in pack_seq_steps(calls):
+                add('chk_send %s %s 255 %s %d 255 %d %s' % (c_tab(md5calls), c_sess(st), C.c_hex(bytes.fromhex(c[2])), seq2, code,
+                                                           C.c_hex(dg or b'')), ('history-send', st, c[2]))
+                D.add(('hp', n, repr(st), c[2]), True, 'history-pack')
 
-    for h in range(8 if q else 60):
-        calls = [['new', 'a'], ['new', 'b']]
-        cur = {}
-        for sid_ in ('a', 'b'):
-            calls.append(['user', sid_, 'admin', rng.choice(okpw)])
-            cur[sid_] = 4
-        for step in range(rng.choice([8, 12, 16])):
-            sid_ = rng.choice(['a', 'a', 'b'])
-            k = rng.random()
-            if k < 0.25:
-                calls.append(['user', sid_, rng.choice(['admin', 'root', None]), rng.choice(okpw)])
+        for h in range(8 if q else 60):
+            calls = [['new', 'a'], ['new', 'b']]
+            cur = {}
+            for sid_ in ('a', 'b'):
+                calls.append(['user', sid_, 'admin', rng.choice(okpw)])
                 cur[sid_] = 4
-                if rng.random() < 0.7:
-                    calls.append(['attr', sid_, 'auth_type', 2])
-                    cur[sid_] = 2
-            elif k < 0.40:
-                a = rng.choice([0, 2, 4, 2])
-                calls.append(['attr', sid_, 'auth_type', a])
-                cur[sid_] = a
-            elif k < 0.50:
-                calls.append(['attr', sid_, 'sid', rid()])
-            elif k < 0.58:
-                calls.append(['attr', sid_, 'sequence_number', rid()])
-            elif k < 0.65:
-                calls.append(['attr', sid_, 'activated', rng.random() < 0.7])
-            calls.append(['send', sid_, bytes(rng.randrange(256) for _ in range(rng.choice([1, 7, 20]))).hex()])
-        history('pack_seq', calls, 'history:datagram-depends-on-earlier-session-state', pack_terms)
+            for step in range(rng.choice([8, 12, 16])):
+                sid_ = rng.choice(['a', 'a', 'b'])
+                k = rng.random()
+                if k < 0.25:
+                    calls.append(['user', sid_, rng.choice(['admin', 'root', None]), rng.choice(okpw)])
+                    cur[sid_] = 4
+                    if rng.random() < 0.7:
+                        calls.append(['attr', sid_, 'auth_type', 2])
+                        cur[sid_] = 2
+                elif k < 0.40:
+                    a = rng.choice([0, 2, 4, 2])
+                    calls.append(['attr', sid_, 'auth_type', a])
+                    cur[sid_] = a
+                elif k < 0.50:
+                    calls.append(['attr', sid_, 'sid', rid()])
+                elif k < 0.58:
+                    calls.append(['attr', sid_, 'sequence_number', rid()])
+                elif k < 0.65:
+                    calls.append(['attr', sid_, 'activated', rng.random() < 0.7])
+                calls.append(['send', sid_, bytes(rng.randrange(256) for _ in range(rng.choice([1, 7, 20]))).hex()])
+            history('pack_seq', calls, 'history:datagram-depends-on-earlier-session-state', pack_terms)
 
     # case files cost time in proportion to their size (long byte-string literals): spread the long
     # terms evenly over the shards with a fixed permutation, map the failing indices back
@@ -921,6 +971,8 @@ def run(ctx):
                 'datagrams on the same Session objects with password / type / id / number / activated changed in between. distinct = distinct canonical inputs, all non-trivial')
     res.samples = [{'term': terms[i][:400], 'case': meta[i]} for i in (0, len(terms) // 3, len(terms) // 2, len(terms) - 1)]
     res.oracle_failures = list(fails.values())
+    res.extra['stage_errors'] = stage_errors
+    res.extra['library_access'] = dict(P.notes)
     return res
 
 
